@@ -69,6 +69,7 @@ class SimThread:
         finally:
             self.status = DONE
             self.kind = "done"
+            self.t_exit = self.sched.now
             self.sched.bump()
             self.sched.obs.append(("thread-exit", self.name))
 
@@ -241,7 +242,12 @@ class Sched:
                 # timers read time.time() (wall) or monotonic depending on the tree
                 clock = self.now + (self.wall_offset if st > 1e8 else 0.0)
                 exp = st + to
-                out.append(self.now + (exp - clock))
+                d = self.now + (exp - clock)
+                if d <= self.now and not tm.expired:
+                    # float rounding: the timer itself does not consider
+                    # itself expired yet, so its expiry is still ahead
+                    d = self.now + 1e-6
+                out.append(d)
         return out
 
     # -- main loop
